@@ -66,9 +66,14 @@ const (
 // ---------------------------------------------------------------- rendering
 
 type c11Render struct {
-	tag   int
-	fn    int
-	defs  []string
+	tag  int
+	fn   int
+	defs []string
+	// inSource: the code being rendered runs under the module name of a `source { }`
+	// body (directly, or through `fexec function`, which keeps the caller's module):
+	// privates of the program's module are not callable there (that is C22's
+	// subject), so a private call is rendered as a function.
+	inSource bool
 }
 
 func c11Name(x int) string { return c11Names[((x%len(c11Names))+len(c11Names))%len(c11Names)] }
@@ -145,10 +150,22 @@ func (r *c11Render) op(o c11Op) (string, string) {
 		q := coqlit.App("OReadGlobal", coqlit.N(uint64(t)), xq)
 		return fmt.Sprintf(`out "t%d=$GLOBAL.%s" || out "t%d!"`, t, x, t), q
 	case "call":
+		syn := c11Mod(o.Syn, c11CallSyn)
+		if syn == 2 && r.inSource {
+			syn = 0
+		}
+		saved := r.inSource
+		switch syn {
+		case 0, 2:
+			r.inSource = false // a function / private body runs under the module that defined it
+		case 3:
+			r.inSource = true
+		} // case 1: `fexec function` runs the body under the CALLER's module (feFunction passes p.FileRef)
 		body, q := r.ops(o.Body)
+		r.inSource = saved
 		q = coqlit.App("OCall", q)
 		r.fn++
-		switch c11Mod(o.Syn, c11CallSyn) {
+		switch syn {
 		case 0:
 			fn := fmt.Sprintf("cxifn%d", r.fn)
 			r.defs = append(r.defs, "function "+fn+" { "+body+" }")
@@ -456,9 +473,9 @@ func (c11) Gen(seed int64, tier string, emit func(any)) {
 			emit(c11Case{Ops: ops})
 		}
 	}
-	n := 500
+	n := 300
 	if tier == "thorough" {
-		n = 12000
+		n = 6000
 	}
 	for i := 0; i < n; i++ {
 		g.val = 0
